@@ -36,8 +36,13 @@ def make_setup(seed, linear=False, packed=False):
             mask[j, r.randint(2, IMAX - 2)] = 1
     hc = float(r.choice([0.0, 4.0, 8.0]))
     vt = int(r.choice([1, 2]))
+    if not linear and seed % 2 == 1:
+        vt = 1 if seed % 4 == 1 else vt
+        # a critical depth above the shallowest water (12 m over 8 m columns): with these stretching curves the levels are
+        # still increasing in every column, for both transforms; the levels are those of the file's hc, whatever is loaded
+        hc = 12.0
     Cs_r = -1.0 + (np.arange(N) + 0.5) / N
-    if r.rand() < 0.5:  # a stretched (still dyadic-free) curve
+    if r.rand() < 0.5 or hc == 12.0:  # a stretched (still dyadic-free) curve (always with the large hc: unstretched, hc drops out)
         Cs_r = -(np.abs(Cs_r) ** 1.5)
     if linear:
         a, b, c, d = [float(x) / 8 for x in r.randint(-8, 9, size=4)]
